@@ -152,10 +152,20 @@ Theorem reachable_RInv size copy start ops : valid_size size = true -> Forall op
 Proof. intros. apply rfold_RInv; auto. apply RInv_init; auto. Qed.
 
 (* the state the model reaches is the one rfold reaches *)
-Lemma rrun_rfold ops : forall s al, rrun s ops = rrun s ops /\
+Lemma rfold_state ops : forall s al,
   fst (rfold s al ops) = fold_left (fun st o => fst (rstep st o)) ops s.
+Proof. induction ops as [|o ops IH]; intros s al; simpl; auto. Qed.
+
+(* the entries of a send history are the packet as sent, or its RFC 4588 form *)
+Theorem stored_form s hd h pay p : stored s hd h pay = NPOk p ->
+  let rtx := rs_copy s && is_rtx (si_rtxssrc (hd_info hd)) (si_rtxpt (hd_info hd)) in
+  rp_seq p = h_seq h /\
+  is_resend_of rtx (si_rtxssrc (hd_info hd)) (si_rtxpt (hd_info hd)) h pay (rp_hdr p) (rp_pay p).
 Proof.
-  induction ops as [|o ops IH]; intros s al; simpl; auto. split; auto. apply IH.
+  unfold stored. destruct (rs_copy s); simpl.
+  - destruct (new_packet _ _ _ _ _) as [r sq] eqn:E. simpl. intros ->.
+    apply new_packet_form in E. tauto.
+  - unfold new_packet_noop. intros H; inversion H; subst. simpl. auto.
 Qed.
 
 (* one write per request at most, in request order: the answer is a
@@ -168,5 +178,5 @@ Lemma nack_answer_one_per_request size wid a seqs :
 Proof.
   split; [unfold nack_answer; apply flat_map_concat_map|].
   unfold nack_answer. induction seqs as [|x l IH]; simpl; auto.
-  rewrite app_length. destruct (designated size a x); simpl; Show; lia.
+  rewrite app_length. destruct (designated size a x); simpl; [apply le_n_S; exact IH|apply le_S; exact IH].
 Qed.
